@@ -145,3 +145,27 @@ Proof.
   - apply (sweep_sound SMALL_FUEL 3 3 1); [vm_compute; reflexivity|assumption..].
   - apply (sweep_sound SMALL_FUEL 2 4 1); [vm_compute; reflexivity|assumption..].
 Qed.
+
+(* in-bounds for the in/out argument as well: rows of the right width already in `basis` *)
+Theorem lde_from_in_bounds A fuel basis0 : wf_mat A -> Forall (fun b => length b = m_q A) basis0 ->
+  lde_from fuel A basis0 = ErrFuel \/ exists B, lde_from fuel A basis0 = Ok B.
+Proof.
+  intros Hwf Hb. rewrite lde_refines by assumption. apply aloop_no_oob.
+Qed.
+
+(* order and is_minimum on vectors of equal width: order(t, basis, k) says "basis[k] is strictly
+   below t", is_minimum(t, basis, size) says "no basis element is strictly below t" *)
+Theorem order_correct t basis k bk : nth_error basis k = Some bk -> length bk = length t ->
+  exists o, order t basis k = Ok o /\ (o = true <-> le_vec bk t /\ bk <> t).
+Proof.
+  intros Hk L. exists (lt_vecb bk t). split; [apply order_spec; assumption|]. apply lt_vecb_spec.
+Qed.
+
+Theorem is_minimum_correct t basis : Forall (fun b => length b = length t) basis ->
+  exists m, is_minimum t basis (length basis) = Ok m /\
+            (m = true <-> forall b, In b basis -> ~ (le_vec b t /\ b <> t)).
+Proof.
+  intros H. exists (amin t basis). split; [apply is_minimum_full; exact H|]. split.
+  - apply amin_true.
+  - apply amin_intro.
+Qed.
